@@ -325,4 +325,765 @@ theorem inv_run (sc : Script) {s : S} (hi : Inv s) (ins : List In) : Inv (run sc
   | nil => exact hi
   | cons i t ih => exact ih (inv_step sc hi i)
 
+/-! ### bookkeeping of poll_cb versus the specification `specCbs` -/
+
+theorem statbufEq_iff (a b : Stat) : statbufEq a b = true ↔ a = b := by
+  cases a; cases b; simp [statbufEq]; grind
+
+theorem status_err_neg (e : Nat) : (Res.err e).status < 0 := by
+  show -((e : Int) + 1) < 0
+  omega
+
+theorem status_err_inj (e f : Nat) : (Res.err e).status = (Res.err f).status ↔ e = f := by
+  show -((e : Int) + 1) = -((f : Int) + 1) ↔ e = f
+  omega
+
+theorem fires_eq_reported (hist : List Res) (r : Res) :
+    fires (busyOf hist) (lastOk hist) r = reported hist r := by
+  cases r with
+  | err e =>
+    have hn := status_err_neg e
+    cases hist with
+    | nil => simp only [fires, busyOf, reported]; simp; omega
+    | cons p t =>
+      cases p with
+      | ok st => simp only [fires, busyOf, reported, differ]; simp; omega
+      | err f =>
+        have := status_err_inj f e
+        simp only [fires, busyOf, reported, differ]
+        rw [Bool.eq_iff_iff]; simp only [bne_iff_ne, ne_eq]; exact not_congr this
+  | ok st =>
+    cases hist with
+    | nil => simp [fires, busyOf, reported]
+    | cons p t =>
+      cases p with
+      | ok st' => simp [fires, busyOf, reported, differ, lastOk]
+      | err f =>
+        have hn := status_err_neg f
+        simp only [fires, busyOf, reported, differ]; simp
+        exact ⟨by omega, Or.inl (decide_eq_true hn)⟩
+
+theorem noteResult_spec (C : Ctx) (hist : List Res) (r : Res)
+    (hb : C.busy = busyOf hist) (hs : C.statbuf = lastOk hist) :
+    (noteResult C (reported hist r) r).busy = busyOf (r :: hist) ∧
+    (noteResult C (reported hist r) r).statbuf = lastOk (r :: hist) := by
+  cases r with
+  | ok st => simp [noteResult, busyOf, lastOk]
+  | err e =>
+    have := fires_eq_reported hist (.err e)
+    simp only [noteResult, busyOf, lastOk]
+    by_cases hr : reported hist (.err e) = true
+    · simp [hr, hs]
+    · simp only [hr, Bool.false_eq_true, if_false]
+      refine ⟨?_, hs⟩
+      rw [← this] at hr
+      simp [fires, ← hb] at hr
+      exact hr
+
+/-- per-context bookkeeping invariant behind `poll_chain` -/
+def PCat (s : S) (c : Nat) : Prop :=
+  (c < s.nctx → cbsOf c s.trace = specCbs (histOf c s.trace) ∧
+      (s.ctxs c).busy = busyOf (histOf c s.trace) ∧ (s.ctxs c).statbuf = lastOk (histOf c s.trace)) ∧
+  (s.nctx ≤ c → cbsOf c s.trace = [] ∧ histOf c s.trace = [])
+
+theorem log_stopCore (s : S) (h c : Nat) :
+    histOf c (stopCore s h).trace = histOf c s.trace ∧ cbsOf c (stopCore s h).trace = cbsOf c s.trace ∧
+    armsOf c (stopCore s h).trace = armsOf c s.trace ∧
+    statsOf c (stopCore s h).trace = statsOf c s.trace := by
+  unfold stopCore
+  by_cases h1 : (s.hs h).active = true
+  · simp only [h1, Bool.not_true, Bool.false_eq_true, if_false]
+    cases (s.hs h).chain with
+    | nil => simp [S.fail]
+    | cons hd tl =>
+      by_cases h2 : (s.ctxs hd).freed = true <;> by_cases h3 : (s.ctxs hd).timerActive = true <;>
+        simp [h2, h3, S.fail, S.setH, S.setCtx, S.emit, histOf, cbsOf, armsOf, statsOf]
+  · simp [h1]
+
+def sameLog (c : Nat) (s s' : S) : Prop :=
+  histOf c s'.trace = histOf c s.trace ∧ cbsOf c s'.trace = cbsOf c s.trace
+
+theorem log_apiStart (s : S) (h cb p iv c : Nat) : sameLog c s (apiStart s h cb p iv) := by
+  unfold apiStart sameLog
+  by_cases h1 : (s.hs h).closing = true
+  · simp [h1, S.emit, histOf, cbsOf, armsOf]
+  · by_cases h2 : (s.hs h).active = true <;> simp [h1, h2, S.emit, histOf, cbsOf, armsOf]
+
+theorem log_apiStop (s : S) (h c : Nat) : sameLog c s (apiStop s h) := by
+  unfold apiStop sameLog
+  by_cases h1 : (s.hs h).closed = true
+  · simp [h1, S.emit, histOf, cbsOf, armsOf]
+  · have := log_stopCore s h c
+    simp [h1, S.emit, histOf, cbsOf, armsOf, this]
+
+theorem log_apiClose (s : S) (h c : Nat) : sameLog c s (apiClose s h) := by
+  unfold apiClose sameLog
+  by_cases h1 : (s.hs h).closing = true
+  · simp [h1, S.emit, histOf, cbsOf, armsOf]
+  · have := log_stopCore (s.setH h { (s.hs h) with closing := true }) h c
+    simp only [h1, Bool.false_eq_true, if_false]
+    generalize stopCore (s.setH h { (s.hs h) with closing := true }) h = s2 at this ⊢
+    simp only [S.setH] at this
+    by_cases h2 : (s2.hs h).chain.isEmpty = true
+    · simp [h2, S.emit, S.setH, histOf, cbsOf, armsOf, this]
+    · simp [h2, S.emit, histOf, cbsOf, armsOf, this]
+
+theorem log_applyOp (s : S) (o : Op) (c : Nat) : sameLog c s (applyOp s o) := by
+  unfold applyOp
+  have he : sameLog c s (s.emit (.api o)) := by simp [sameLog, S.emit, histOf, cbsOf, armsOf]
+  have tr : ∀ s2, sameLog c (s.emit (.api o)) s2 → sameLog c s s2 := by
+    intro s2 h2; unfold sameLog at *; exact ⟨h2.1.trans he.1, h2.2.trans he.2⟩
+  cases o with
+  | start h cb p iv => exact tr _ (log_apiStart _ h cb p iv c)
+  | stop h => exact tr _ (log_apiStop _ h c)
+  | close h => exact tr _ (log_apiClose _ h c)
+
+theorem log_foldOps (s : S) (ops : List Op) (c : Nat) : sameLog c s (ops.foldl applyOp s) := by
+  induction ops generalizing s with
+  | nil => simp [sameLog]
+  | cons o t ih =>
+    have h1 := log_applyOp s o c
+    have h2 := ih (applyOp s o)
+    unfold sameLog at *
+    exact ⟨h2.1.trans h1.1, h2.2.trans h1.2⟩
+
+theorem log_runCb (sc : Script) (s : S) (c : Nat) : sameLog c s (runCb sc s) :=
+  log_foldOps { s with ncb := s.ncb + 1 } _ c
+
+theorem pcat_transfer {s s' : S} {c : Nat} (hn : s.nctx ≤ s'.nctx) (hl : sameLog c s s')
+    (hold : c < s.nctx → (s'.ctxs c).busy = (s.ctxs c).busy ∧ (s'.ctxs c).statbuf = (s.ctxs c).statbuf)
+    (hnew : s.nctx ≤ c → c < s'.nctx → (s'.ctxs c).busy = 0 ∧ (s'.ctxs c).statbuf = Stat.zero)
+    (hp : PCat s c) : PCat s' c := by
+  unfold PCat sameLog at *
+  obtain ⟨l1, l2⟩ := hl
+  rw [l1, l2]
+  constructor
+  · intro hc'
+    by_cases hc : c < s.nctx
+    · have := hp.1 hc; have ho := hold hc
+      exact ⟨this.1, ho.1.trans this.2.1, ho.2.trans this.2.2⟩
+    · have hge : s.nctx ≤ c := Nat.le_of_not_lt hc
+      have := hp.2 hge; have hw := hnew hge hc'
+      rw [this.1, this.2]
+      exact ⟨by simp [specCbs], by simp [hw.1, busyOf], by simp [hw.2, lastOk]⟩
+  · intro hc'
+    exact hp.2 (Nat.le_trans hn hc')
+
+theorem nctx_apiStop (s : S) (h : Nat) : (apiStop s h).nctx = s.nctx := by
+  unfold apiStop
+  by_cases h1 : (s.hs h).closed = true
+  · simp [h1, S.emit]
+  · simp [h1, S.emit, (frame_stopCore (s := s) h 0).1]
+
+theorem nctx_apiClose (s : S) (h : Nat) : (apiClose s h).nctx = s.nctx := by
+  unfold apiClose
+  by_cases h1 : (s.hs h).closing = true
+  · simp [h1, S.emit]
+  · have := (frame_stopCore (s := s.setH h { (s.hs h) with closing := true }) h 0).1
+    simp only [h1, Bool.false_eq_true, if_false]
+    generalize stopCore (s.setH h { (s.hs h) with closing := true }) h = s2 at this ⊢
+    simp only [S.setH] at this
+    by_cases h2 : (s2.hs h).chain.isEmpty = true
+    · simp [h2, S.emit, S.setH, this]
+    · simp [h2, S.emit, this]
+
+theorem fresh_applyOp (s : S) (o : Op) (c : Nat) (h1 : s.nctx ≤ c) (h2 : c < (applyOp s o).nctx) :
+    ((applyOp s o).ctxs c).busy = 0 ∧ ((applyOp s o).ctxs c).statbuf = Stat.zero := by
+  cases o with
+  | start h cb p iv =>
+    simp only [applyOp, apiStart, S.emit] at *
+    by_cases g1 : (s.hs h).closing = true
+    · simp [g1] at h2; omega
+    · by_cases g2 : (s.hs h).active = true
+      · simp [g1, g2] at h2; omega
+      · simp [g1, g2] at h2 ⊢
+        have : c = s.nctx := by omega
+        subst this; simp [Stat.zero]
+  | stop h =>
+    exfalso
+    have h3 := nctx_apiStop (s.emit (.api (.stop h))) h
+    simp only [applyOp] at h2
+    rw [h3] at h2; simp only [S.emit] at h2; omega
+  | close h =>
+    exfalso
+    have h3 := nctx_apiClose (s.emit (.api (.close h))) h
+    simp only [applyOp] at h2
+    rw [h3] at h2; simp only [S.emit] at h2; omega
+
+theorem pcat_applyOp {s : S} (o : Op) {c : Nat} (hp : PCat s c) : PCat (applyOp s o) c := by
+  by_cases hc : c < s.nctx
+  · have fr := frame_applyOp (s := s) o hc
+    exact pcat_transfer fr.1 (log_applyOp s o c) (fun _ => ⟨fr.2.2.2.2.2.2.1, fr.2.2.2.2.2.2.2.1⟩)
+      (fun h _ => absurd hc (Nat.not_lt_of_le h)) hp
+  · have hge : s.nctx ≤ c := Nat.le_of_not_lt hc
+    have hn : s.nctx ≤ (applyOp s o).nctx := by
+      cases o with
+      | start h cb p iv =>
+        simp only [applyOp, apiStart, S.emit]
+        by_cases g1 : (s.hs h).closing = true
+        · simp [g1]
+        · by_cases g2 : (s.hs h).active = true <;> simp [g1, g2]
+      | stop h =>
+        simp only [applyOp]
+        exact (frame_apiStop (s := s.emit (.api (.stop h))) h c).1
+      | close h =>
+        simp only [applyOp]
+        exact (frame_apiClose (s := s.emit (.api (.close h))) h c).1
+    exact pcat_transfer hn (log_applyOp s o c) (fun h => absurd h hc) (fun _ h2 => fresh_applyOp s o c hge h2) hp
+
+theorem pcat_foldOps {s : S} (ops : List Op) {c : Nat} (hp : PCat s c) : PCat (ops.foldl applyOp s) c := by
+  induction ops generalizing s with
+  | nil => exact hp
+  | cons o t ih => exact ih (pcat_applyOp o hp)
+
+theorem pcat_runCb (sc : Script) {s : S} {c : Nat} (hp : PCat s c) : PCat (runCb sc s) c :=
+  pcat_foldOps (s := { s with ncb := s.ncb + 1 }) _ hp
+
+theorem frame_finishPoll (s : S) (c c' : Nat) :
+    (finishPoll s c).nctx = s.nctx ∧ sameLog c' s (finishPoll s c) ∧
+    ((finishPoll s c).ctxs c').busy = (s.ctxs c').busy ∧
+    ((finishPoll s c).ctxs c').statbuf = (s.ctxs c').statbuf := by
+  unfold finishPoll sameLog
+  by_cases h1 : (s.ctxs c).timerClosing = true <;> by_cases h2 : liveB s c = true <;>
+    by_cases h3 : c' = c <;>
+    simp [h1, h2, h3, S.fail, S.setCtx, S.emit, histOf, cbsOf, upd_apply]
+
+/-- poll_cb on an enabled event in a state satisfying the invariant, with the guards resolved -/
+theorem statDone_enabled (sc : Script) {s : S} (hi : Inv s) {c : Nat} (hc : c < s.nctx)
+    (hst : (s.ctxs c).statInFlight = true) (r : Res) :
+    statDone sc s c r =
+      finishPoll
+        (if liveB s c = true then
+          (if (liveB s c && fires (s.ctxs c).busy (s.ctxs c).statbuf r) = true then
+              runCb sc ((s.emit (.res c r (liveB s c))).emit
+                (.cb c (s.ctxs c).handle (s.ctxs c).cb r.status (s.ctxs c).statbuf r.curr))
+            else s.emit (.res c r (liveB s c))).setCtx c
+            (noteResult ((if (liveB s c && fires (s.ctxs c).busy (s.ctxs c).statbuf r) = true then
+              runCb sc ((s.emit (.res c r (liveB s c))).emit
+                (.cb c (s.ctxs c).handle (s.ctxs c).cb r.status (s.ctxs c).statbuf r.curr))
+            else s.emit (.res c r (liveB s c))).ctxs c)
+              (liveB s c && fires (s.ctxs c).busy (s.ctxs c).statbuf r) r)
+         else
+          (if (liveB s c && fires (s.ctxs c).busy (s.ctxs c).statbuf r) = true then
+              runCb sc ((s.emit (.res c r (liveB s c))).emit
+                (.cb c (s.ctxs c).handle (s.ctxs c).cb r.status (s.ctxs c).statbuf r.curr))
+            else s.emit (.res c r (liveB s c)))) c := by
+  have hf : (s.ctxs c).freed = false := by have := hi.phaseFreed c hc; grind
+  have ho := handle_open hi hc hf
+  unfold statDone
+  simp [hc, hst, hf, ho]
+
+theorem pcat_emit_other {s : S} {c c' : Nat} (hne : c ≠ c') (hp : PCat s c') (r : Res) (l : Bool) :
+    PCat (s.emit (.res c r l)) c' :=
+  pcat_transfer (s := s) (s' := s.emit (.res c r l)) (Nat.le_refl _)
+    (by simp [sameLog, S.emit, histOf, cbsOf, hne]) (fun _ => ⟨rfl, rfl⟩)
+    (fun h1 h2 => absurd h2 (Nat.not_lt_of_le h1)) hp
+
+theorem pcat_emitcb_other {s : S} {c c' : Nat} (hne : c ≠ c') (hp : PCat s c') (h f : Nat) (st : Int) (a b : Stat) :
+    PCat (s.emit (.cb c h f st a b)) c' :=
+  pcat_transfer (s := s) (s' := s.emit (.cb c h f st a b)) (Nat.le_refl _)
+    (by simp [sameLog, S.emit, histOf, cbsOf, hne]) (fun _ => ⟨rfl, rfl⟩)
+    (fun h1 h2 => absurd h2 (Nat.not_lt_of_le h1)) hp
+
+theorem pcat_setCtx_other {s : S} {c c' : Nat} (hne : c ≠ c') (_hc : c < s.nctx) (hp : PCat s c') (C : Ctx) :
+    PCat (s.setCtx c C) c' := by
+  have hne' : c' ≠ c := fun h => hne h.symm
+  exact pcat_transfer (s := s) (s' := s.setCtx c C) (Nat.le_refl _) (by simp [sameLog, S.setCtx])
+    (by intro _; simp [S.setCtx, upd_apply, hne']) (fun h1 h2 => absurd h2 (Nat.not_lt_of_le h1)) hp
+
+theorem pcat_finishPoll {s : S} (c : Nat) {c' : Nat} (hp : PCat s c') : PCat (finishPoll s c) c' := by
+  have fr := frame_finishPoll s c c'
+  exact pcat_transfer (Nat.le_of_eq fr.1.symm) fr.2.1 (fun _ => fr.2.2)
+    (fun h1 h2 => absurd (fr.1 ▸ h2) (Nat.not_lt_of_le h1)) hp
+
+theorem pcat_statDone (sc : Script) {s : S} (hi : Inv s) (c : Nat) (r : Res) {c' : Nat}
+    (hp : PCat s c') : PCat (statDone sc s c r) c' := by
+  by_cases hen : (decide (c < s.nctx) && (s.ctxs c).statInFlight) = true
+  · have hc : c < s.nctx := by simp at hen; exact hen.1
+    have hst : (s.ctxs c).statInFlight = true := by simp at hen; exact hen.2
+    rw [statDone_enabled sc hi hc hst r]
+    apply pcat_finishPoll
+    generalize hlive : liveB s c = live
+    generalize hfired : (live && fires (s.ctxs c).busy (s.ctxs c).statbuf r) = fired
+    by_cases hcc : c = c'
+    · subst hcc
+      have ⟨hcbs, hbusy, hsb⟩ := hp.1 hc
+      cases live with
+      | false =>
+        simp at hfired; subst hfired
+        simp only [Bool.false_eq_true, if_false]
+        exact pcat_transfer (s := s) (s' := s.emit (.res c r false)) (Nat.le_refl _)
+          (by simp [sameLog, S.emit, histOf, cbsOf]) (fun _ => ⟨rfl, rfl⟩)
+          (fun h1 h2 => absurd h2 (Nat.not_lt_of_le h1)) hp
+      | true =>
+        simp only [if_true]
+        have hfr : fired = reported (histOf c s.trace) r := by
+          rw [← hfired, hbusy, hsb, fires_eq_reported]; simp
+        have hnr := noteResult_spec (s.ctxs c) (histOf c s.trace) r hbusy hsb
+        cases hfd : fired with
+        | false =>
+          simp only [Bool.false_eq_true, if_false]
+          rw [hfd] at hfr
+          refine ⟨fun _ => ?_, fun h => absurd hc (Nat.not_lt_of_le h)⟩
+          simp only [S.setCtx, S.emit, upd_same, histOf, cbsOf, Bool.true_and, beq_self_eq_true, if_true]
+          rw [← hfr] at hnr
+          refine ⟨?_, hnr.1, hnr.2⟩
+          simp [specCbs, ← hfr, hcbs]
+        | true =>
+          simp only [if_true]
+          rw [hfd] at hfr
+          have fr := frame_runCb sc (s := (s.emit (.res c r true)).emit
+            (.cb c (s.ctxs c).handle (s.ctxs c).cb r.status (s.ctxs c).statbuf r.curr)) (c := c) hc
+          have lg := log_runCb sc ((s.emit (.res c r true)).emit
+            (.cb c (s.ctxs c).handle (s.ctxs c).cb r.status (s.ctxs c).statbuf r.curr)) c
+          generalize runCb sc ((s.emit (.res c r true)).emit
+            (.cb c (s.ctxs c).handle (s.ctxs c).cb r.status (s.ctxs c).statbuf r.curr)) = s2 at fr lg ⊢
+          simp only [S.emit] at fr lg
+          have hb2 : (s2.ctxs c).busy = busyOf (histOf c s.trace) := fr.2.2.2.2.2.2.1.trans hbusy
+          have hs2 : (s2.ctxs c).statbuf = lastOk (histOf c s.trace) := fr.2.2.2.2.2.2.2.1.trans hsb
+          have hnr2 := noteResult_spec (s2.ctxs c) (histOf c s.trace) r hb2 hs2
+          rw [← hfr] at hnr2
+          refine ⟨fun _ => ?_, fun h => absurd (Nat.lt_of_lt_of_le hc fr.1) (Nat.not_lt_of_le h)⟩
+          simp only [S.setCtx, upd_same, sameLog, histOf, cbsOf, Bool.true_and, beq_self_eq_true, if_true] at lg ⊢
+          rw [lg.1, lg.2]
+          refine ⟨?_, hnr2.1, hnr2.2⟩
+          simp [specCbs, ← hfr, hcbs, hsb]
+    · have hp1 : PCat (s.emit (.res c r live)) c' := pcat_emit_other hcc hp r live
+      have hp2 : PCat (if fired = true then runCb sc ((s.emit (.res c r live)).emit
+          (.cb c (s.ctxs c).handle (s.ctxs c).cb r.status (s.ctxs c).statbuf r.curr))
+          else s.emit (.res c r live)) c' := by
+        split
+        · exact pcat_runCb sc (pcat_emitcb_other hcc hp1 _ _ _ _ _)
+        · exact hp1
+      have hn2 : c < (if fired = true then runCb sc ((s.emit (.res c r live)).emit
+          (.cb c (s.ctxs c).handle (s.ctxs c).cb r.status (s.ctxs c).statbuf r.curr))
+          else s.emit (.res c r live)).nctx := by
+        split
+        · exact Nat.lt_of_lt_of_le hc (frame_runCb sc (s := (s.emit (.res c r live)).emit _) (c := c) hc).1
+        · exact hc
+      split
+      · exact pcat_setCtx_other hcc hn2 hp2 _
+      · exact hp2
+  · unfold statDone
+    simp only [hen, Bool.not_false, if_true]
+    exact pcat_transfer (s := s) (s' := s.emit .badEvent) (Nat.le_refl _)
+      (by simp [sameLog, S.emit, histOf, cbsOf]) (fun _ => ⟨rfl, rfl⟩)
+      (fun h1 h2 => absurd h2 (Nat.not_lt_of_le h1)) hp
+
+theorem frame_timerFire (s : S) (c c' : Nat) :
+    (timerFire s c).nctx = s.nctx ∧ sameLog c' s (timerFire s c) ∧
+    ((timerFire s c).ctxs c').busy = (s.ctxs c').busy ∧
+    ((timerFire s c).ctxs c').statbuf = (s.ctxs c').statbuf := by
+  unfold timerFire sameLog
+  by_cases h1 : (decide (c < s.nctx) && (s.ctxs c).timerActive && decide ((s.ctxs c).due ≤ s.now)) = true
+  · simp only [h1, Bool.not_true, Bool.false_eq_true, if_false]
+    by_cases h2 : ((s.ctxs c).freed || (s.hs (s.ctxs c).handle).closed || (s.ctxs c).statInFlight ||
+        !((s.hs (s.ctxs c).handle).chain.head? == some c)) = true <;> by_cases h3 : c' = c <;>
+      simp [h2, h3, S.fail, S.setCtx, S.emit, histOf, cbsOf, upd_apply]
+  · simp [h1, S.emit, histOf, cbsOf]
+
+theorem frame_closeCb (s : S) (h c' : Nat) :
+    (closeCb s h).nctx = s.nctx ∧ sameLog c' s (closeCb s h) ∧ (closeCb s h).ctxs = s.ctxs := by
+  unfold closeCb sameLog
+  by_cases h1 : ((s.hs h).closePending && !(s.hs h).closed) = true
+  · simp [h1, S.setH]
+  · simp [h1, S.emit, histOf, cbsOf]
+
+theorem frame_timerClosed (s : S) (c c' : Nat) :
+    (timerClosed s c).nctx = s.nctx ∧ sameLog c' s (timerClosed s c) ∧
+    ((timerClosed s c).ctxs c').busy = (s.ctxs c').busy ∧
+    ((timerClosed s c).ctxs c').statbuf = (s.ctxs c').statbuf := by
+  unfold timerClosed sameLog
+  by_cases h1 : (decide (c < s.nctx) && (s.ctxs c).timerClosing && !(s.ctxs c).freed) = true
+  · simp only [h1, Bool.not_true, Bool.false_eq_true, if_false]
+    have e0 : (if (s.hs (s.ctxs c).handle).closed = true then s.fail else s).nctx = s.nctx ∧
+        (if (s.hs (s.ctxs c).handle).closed = true then s.fail else s).trace = s.trace ∧
+        (if (s.hs (s.ctxs c).handle).closed = true then s.fail else s).ctxs = s.ctxs := by
+      split <;> simp [S.fail]
+    generalize (if (s.hs (s.ctxs c).handle).closed = true then s.fail else s) = s0 at e0 ⊢
+    obtain ⟨e1, e2, e3⟩ := e0
+    cases (s.hs (s.ctxs c).handle).chain with
+    | nil => by_cases h3 : c' = c <;> simp [S.fail, S.setCtx, e1, e2, e3, h3, upd_apply]
+    | cons hd tl =>
+      by_cases g1 : hd = c <;> by_cases g2 : (tl.isEmpty && (s.hs (s.ctxs c).handle).closing) = true <;>
+        by_cases g3 : (s.hs (s.ctxs c).handle).closePending = true <;> by_cases g4 : c ∈ tl <;>
+        by_cases h3 : c' = c <;>
+        simp [S.fail, S.setCtx, S.setH, e1, e2, e3, g1, g2, g3, g4, h3, upd_apply]
+  · simp [h1, S.emit, histOf, cbsOf]
+theorem pcat_step (sc : Script) {s : S} (hi : Inv s) (i : In) {c' : Nat} (hp : PCat s c') :
+    PCat (step sc s i) c' := by
+  cases i with
+  | op o => exact pcat_applyOp o hp
+  | statDone c r => exact pcat_statDone sc hi c r hp
+  | timerFire c =>
+    have fr := frame_timerFire s c c'
+    exact pcat_transfer (s' := timerFire s c) (Nat.le_of_eq fr.1.symm) fr.2.1 (fun _ => fr.2.2)
+      (fun h1 h2 => absurd (fr.1 ▸ h2) (Nat.not_lt_of_le h1)) hp
+  | timerClosed c =>
+    have fr := frame_timerClosed s c c'
+    exact pcat_transfer (s' := timerClosed s c) (Nat.le_of_eq fr.1.symm) fr.2.1 (fun _ => fr.2.2)
+      (fun h1 h2 => absurd (fr.1 ▸ h2) (Nat.not_lt_of_le h1)) hp
+  | closeCb h =>
+    have fr := frame_closeCb s h c'
+    exact pcat_transfer (s' := closeCb s h) (Nat.le_of_eq fr.1.symm) fr.2.1
+      (fun _ => by rw [fr.2.2]; exact ⟨rfl, rfl⟩)
+      (fun h1 h2 => absurd (fr.1 ▸ h2) (Nat.not_lt_of_le h1)) hp
+  | advance n =>
+    exact pcat_transfer (s' := { s with now := s.now + n }) (Nat.le_refl _) ⟨rfl, rfl⟩ (fun _ => ⟨rfl, rfl⟩)
+      (fun h1 h2 => absurd h2 (Nat.not_lt_of_le h1)) hp
+
+theorem pcat_init (c : Nat) : PCat ({} : S) c := by simp [PCat, histOf, cbsOf]
+
+theorem pcat_run (sc : Script) {s : S} (hi : Inv s) (ins : List In) {c' : Nat} (hp : PCat s c') :
+    PCat (run sc s ins) c' := by
+  induction ins generalizing s with
+  | nil => exact hp
+  | cons i t ih => exact ih (inv_step sc hi i) (pcat_step sc hi i hp)
+
+/-! ### a context that is not live stays silent -/
+
+/-- what a dead context may never add to the log -/
+def deadLog (c : Nat) (s s' : S) : Prop :=
+  cbsOf c s'.trace = cbsOf c s.trace ∧ statsOf c s'.trace = statsOf c s.trace ∧
+  armsOf c s'.trace = armsOf c s.trace
+
+theorem deadLog_refl (c : Nat) (s : S) : deadLog c s s := ⟨rfl, rfl, rfl⟩
+theorem deadLog_trans {c : Nat} {a b d : S} (h1 : deadLog c a b) (h2 : deadLog c b d) : deadLog c a d :=
+  ⟨h2.1.trans h1.1, h2.2.1.trans h1.2.1, h2.2.2.trans h1.2.2⟩
+
+theorem dead_stopCore {s : S} (h : Nat) {c : Nat} (hd : liveB s c = false) :
+    liveB (stopCore s h) c = false := by
+  unfold stopCore
+  by_cases h1 : (s.hs h).active = true
+  · simp only [h1, Bool.not_true, Bool.false_eq_true, if_false]
+    cases hch : (s.hs h).chain with
+    | nil => simpa [S.fail, liveB] using hd
+    | cons hd' tl =>
+      by_cases h2 : (s.ctxs hd').freed = true <;> by_cases h3 : (s.ctxs hd').timerActive = true <;>
+        simp only [h2, h3, S.fail, S.setH, S.setCtx, S.emit, liveB, if_true, if_false, Bool.false_eq_true] at hd ⊢ <;>
+        grind
+  · simpa [h1] using hd
+
+theorem dead_apiStart {s : S} (h cb p iv : Nat) {c : Nat} (hc : c < s.nctx) (hd : liveB s c = false) :
+    liveB (apiStart s h cb p iv) c = false ∧ deadLog c s (apiStart s h cb p iv) := by
+  have hne : c ≠ s.nctx := Nat.ne_of_lt hc
+  unfold apiStart deadLog
+  by_cases g1 : (s.hs h).closing = true
+  · simp only [g1, if_true, S.emit]
+    exact ⟨by simpa [liveB] using hd, by simp [cbsOf], by simp [statsOf], by simp [armsOf]⟩
+  · by_cases g2 : (s.hs h).active = true
+    · simp only [g1, g2, if_true, Bool.false_eq_true, if_false, S.emit]
+      exact ⟨by simpa [liveB] using hd, by simp [cbsOf], by simp [statsOf], by simp [armsOf]⟩
+    · simp only [g1, g2, Bool.false_eq_true, if_false, S.emit]
+      refine ⟨?_, by simp [cbsOf], by simp [statsOf, Ne.symm hne], by simp [armsOf]⟩
+      simp only [liveB] at hd ⊢
+      grind
+
+theorem dead_apiStop {s : S} (h : Nat) {c : Nat} (hd : liveB s c = false) :
+    liveB (apiStop s h) c = false ∧ deadLog c s (apiStop s h) := by
+  unfold apiStop deadLog
+  by_cases g1 : (s.hs h).closed = true
+  · simp only [g1, if_true, S.emit]
+    exact ⟨by simpa [liveB] using hd, by simp [cbsOf], by simp [statsOf], by simp [armsOf]⟩
+  · have lg := log_stopCore s h c
+    have dd := dead_stopCore h hd
+    simp only [g1, Bool.false_eq_true, if_false, S.emit]
+    exact ⟨by simpa [liveB] using dd, by simp [cbsOf, lg], by simp [statsOf, lg], by simp [armsOf, lg]⟩
+
+theorem dead_apiClose {s : S} (h : Nat) {c : Nat} (hd : liveB s c = false) :
+    liveB (apiClose s h) c = false ∧ deadLog c s (apiClose s h) := by
+  unfold apiClose deadLog
+  by_cases g1 : (s.hs h).closing = true
+  · simp only [g1, if_true, S.emit]
+    exact ⟨by simpa [liveB] using hd, by simp [cbsOf], by simp [statsOf], by simp [armsOf]⟩
+  · have hd1 : liveB (s.setH h { (s.hs h) with closing := true }) c = false := by
+      simp only [liveB, S.setH] at hd ⊢; grind
+    have lg := log_stopCore (s.setH h { (s.hs h) with closing := true }) h c
+    have dd := dead_stopCore h hd1
+    simp only [g1, Bool.false_eq_true, if_false]
+    generalize stopCore (s.setH h { (s.hs h) with closing := true }) h = s2 at lg dd ⊢
+    simp only [S.setH] at lg
+    by_cases g2 : (s2.hs h).chain.isEmpty = true
+    · simp only [g2, if_true, S.emit, S.setH]
+      refine ⟨?_, by simp [cbsOf, lg], by simp [statsOf, lg], by simp [armsOf, lg]⟩
+      simp only [liveB] at dd ⊢; grind
+    · simp only [g2, Bool.false_eq_true, if_false, S.emit]
+      exact ⟨by simpa [liveB] using dd, by simp [cbsOf, lg], by simp [statsOf, lg], by simp [armsOf, lg]⟩
+
+theorem dead_applyOp {s : S} (o : Op) {c : Nat} (hc : c < s.nctx) (hd : liveB s c = false) :
+    liveB (applyOp s o) c = false ∧ deadLog c s (applyOp s o) := by
+  have he : deadLog c s (s.emit (.api o)) := by simp [deadLog, S.emit, cbsOf, statsOf, armsOf]
+  have hd' : liveB (s.emit (.api o)) c = false := by simpa [liveB, S.emit] using hd
+  unfold applyOp
+  cases o with
+  | start h cb p iv =>
+    have := dead_apiStart (s := s.emit (.api (.start h cb p iv))) h cb p iv hc hd'
+    exact ⟨this.1, deadLog_trans he this.2⟩
+  | stop h =>
+    have := dead_apiStop (s := s.emit (.api (.stop h))) h hd'
+    exact ⟨this.1, deadLog_trans he this.2⟩
+  | close h =>
+    have := dead_apiClose (s := s.emit (.api (.close h))) h hd'
+    exact ⟨this.1, deadLog_trans he this.2⟩
+
+theorem dead_foldOps {s : S} (ops : List Op) {c : Nat} (hc : c < s.nctx) (hd : liveB s c = false) :
+    liveB (ops.foldl applyOp s) c = false ∧ deadLog c s (ops.foldl applyOp s) := by
+  induction ops generalizing s with
+  | nil => exact ⟨hd, deadLog_refl c s⟩
+  | cons o t ih =>
+    have h1 := dead_applyOp o hc hd
+    have h2 := ih (Nat.lt_of_lt_of_le hc (frame_applyOp o hc).1) h1.1
+    exact ⟨h2.1, deadLog_trans h1.2 h2.2⟩
+
+theorem dead_runCb (sc : Script) {s : S} {c : Nat} (hc : c < s.nctx) (hd : liveB s c = false) :
+    liveB (runCb sc s) c = false ∧ deadLog c s (runCb sc s) :=
+  dead_foldOps (s := { s with ncb := s.ncb + 1 }) _ hc hd
+theorem dead_finishPoll {s : S} (e : Nat) {c : Nat} (hd : liveB s c = false) :
+    liveB (finishPoll s e) c = false ∧ deadLog c s (finishPoll s e) := by
+  unfold finishPoll deadLog
+  by_cases h1 : (s.ctxs e).timerClosing = true <;> by_cases h2 : liveB s e = true <;> by_cases h3 : e = c
+  all_goals (try subst h3)
+  all_goals (try (rw [hd] at h2; cases h2))
+  all_goals
+    simp only [h1, h2, S.fail, S.setCtx, S.emit, if_true, if_false, Bool.not_true, Bool.not_false, Bool.false_eq_true]
+    refine ⟨?_, by simp [cbsOf], by simp [statsOf], by simp [armsOf, *]⟩
+    simp only [liveB] at hd ⊢
+    grind
+
+theorem dead_statDone (sc : Script) {s : S} (hi : Inv s) (e : Nat) (r : Res) {c : Nat} (hc : c < s.nctx)
+    (hd : liveB s c = false) :
+    liveB (statDone sc s e r) c = false ∧ deadLog c s (statDone sc s e r) := by
+  by_cases hen : (decide (e < s.nctx) && (s.ctxs e).statInFlight) = true
+  · have he : e < s.nctx := by simp at hen; exact hen.1
+    have hst : (s.ctxs e).statInFlight = true := by simp at hen; exact hen.2
+    rw [statDone_enabled sc hi he hst r]
+    by_cases hec : e = c
+    · subst hec
+      simp only [hd, Bool.false_and, Bool.false_eq_true, if_false]
+      have h1 : liveB (s.emit (.res e r false)) e = false := by simpa [liveB, S.emit] using hd
+      have h2 : deadLog e s (s.emit (.res e r false)) := by simp [deadLog, S.emit, cbsOf, statsOf, armsOf]
+      have h3 := dead_finishPoll (s := s.emit (.res e r false)) e h1
+      exact ⟨h3.1, deadLog_trans h2 h3.2⟩
+    · generalize hlive : liveB s e = live
+      generalize hfired : (live && fires (s.ctxs e).busy (s.ctxs e).statbuf r) = fired
+      have h1 : liveB (s.emit (.res e r live)) c = false := by simpa [liveB, S.emit] using hd
+      have l1 : deadLog c s (s.emit (.res e r live)) := by simp [deadLog, S.emit, cbsOf, statsOf, armsOf]
+      have key : ∀ s2 : S, liveB s2 c = false → deadLog c s s2 →
+          liveB (finishPoll (if live = true then s2.setCtx e (noteResult (s2.ctxs e) fired r) else s2) e) c = false ∧
+          deadLog c s (finishPoll (if live = true then s2.setCtx e (noteResult (s2.ctxs e) fired r) else s2) e) := by
+        intro s2 hd2 l2
+        have hne : c ≠ e := fun h => hec h.symm
+        have h3 : liveB (if live = true then s2.setCtx e (noteResult (s2.ctxs e) fired r) else s2) c = false := by
+          split
+          · simpa [liveB, S.setCtx, upd_apply, hne] using hd2
+          · exact hd2
+        have l3 : deadLog c s2 (if live = true then s2.setCtx e (noteResult (s2.ctxs e) fired r) else s2) := by
+          split
+          · simp [deadLog, S.setCtx]
+          · exact deadLog_refl _ _
+        have h4 := dead_finishPoll e h3
+        exact ⟨h4.1, deadLog_trans l2 (deadLog_trans l3 h4.2)⟩
+      cases fired with
+      | false => simpa using key _ h1 l1
+      | true =>
+        simp only [if_true]
+        have h2 : liveB ((s.emit (.res e r live)).emit
+            (.cb e (s.ctxs e).handle (s.ctxs e).cb r.status (s.ctxs e).statbuf r.curr)) c = false := by
+          simpa [liveB, S.emit] using hd
+        have l2 : deadLog c s ((s.emit (.res e r live)).emit
+            (.cb e (s.ctxs e).handle (s.ctxs e).cb r.status (s.ctxs e).statbuf r.curr)) := by
+          simp [deadLog, S.emit, cbsOf, statsOf, armsOf, hec]
+        have h3 := dead_runCb sc (s := (s.emit (.res e r live)).emit
+            (.cb e (s.ctxs e).handle (s.ctxs e).cb r.status (s.ctxs e).statbuf r.curr)) (c := c) hc h2
+        exact key _ h3.1 (deadLog_trans l2 h3.2)
+  · unfold statDone
+    simp only [hen, Bool.not_false, if_true]
+    exact ⟨by simpa [liveB, S.emit] using hd, by simp [deadLog, S.emit, cbsOf, statsOf, armsOf]⟩
+
+theorem dead_timerFire {s : S} (hi : Inv s) (e : Nat) {c : Nat} (hc : c < s.nctx) (hd : liveB s c = false) :
+    liveB (timerFire s e) c = false ∧ deadLog c s (timerFire s e) := by
+  unfold timerFire
+  by_cases hen : (decide (e < s.nctx) && (s.ctxs e).timerActive && decide ((s.ctxs e).due ≤ s.now)) = true
+  · have hta : (s.ctxs e).timerActive = true := by simp at hen; exact hen.1.2
+    have hec : e ≠ c := by
+      intro h; subst h
+      have := hi.timerLive e hc hta
+      rw [hd] at this; cases this
+    have hne : c ≠ e := fun h => hec h.symm
+    simp only [hen, Bool.not_true, Bool.false_eq_true, if_false]
+    refine ⟨?_, ?_⟩
+    · split <;> simpa [liveB, S.fail, S.setCtx, S.emit, upd_apply, hne] using hd
+    · split <;> simp [deadLog, S.fail, S.setCtx, S.emit, cbsOf, statsOf, armsOf, hec]
+  · simp only [hen, Bool.not_false, if_true]
+    exact ⟨by simpa [liveB, S.emit] using hd, by simp [deadLog, S.emit, cbsOf, statsOf, armsOf]⟩
+
+theorem dead_closeCb {s : S} (h : Nat) {c : Nat} (hd : liveB s c = false) :
+    liveB (closeCb s h) c = false ∧ deadLog c s (closeCb s h) := by
+  unfold closeCb
+  by_cases h1 : ((s.hs h).closePending && !(s.hs h).closed) = true
+  · simp only [h1, Bool.not_true, Bool.false_eq_true, if_false]
+    refine ⟨?_, by simp [deadLog, S.setH]⟩
+    simp only [liveB, S.setH] at hd ⊢; grind
+  · simp only [h1, Bool.not_false, if_true]
+    exact ⟨by simpa [liveB, S.emit] using hd, by simp [deadLog, S.emit, cbsOf, statsOf, armsOf]⟩
+
+theorem trace_timerClosed (s : S) (c : Nat) :
+    (timerClosed s c).trace = s.trace ∨ (timerClosed s c).trace = .badEvent :: s.trace := by
+  unfold timerClosed
+  by_cases h1 : (decide (c < s.nctx) && (s.ctxs c).timerClosing && !(s.ctxs c).freed) = true
+  · left
+    simp only [h1, Bool.not_true, Bool.false_eq_true, if_false]
+    have e0 : (if (s.hs (s.ctxs c).handle).closed = true then s.fail else s).trace = s.trace := by
+      split <;> simp [S.fail]
+    generalize (if (s.hs (s.ctxs c).handle).closed = true then s.fail else s) = s0 at e0 ⊢
+    cases (s.hs (s.ctxs c).handle).chain with
+    | nil => simp [S.fail, S.setCtx, e0]
+    | cons hd tl =>
+      by_cases g1 : hd = c <;> by_cases g2 : (tl.isEmpty && (s.hs (s.ctxs c).handle).closing) = true <;>
+        by_cases g3 : (s.hs (s.ctxs c).handle).closePending = true <;> by_cases g4 : c ∈ tl <;>
+        simp [S.fail, S.setCtx, S.setH, e0, g1, g2, g3, g4]
+  · right; simp [h1, S.emit]
+
+theorem dead_timerClosed {s : S} (hi : Inv s) (e : Nat) {c : Nat} (hd : liveB s c = false) :
+    liveB (timerClosed s e) c = false ∧ deadLog c s (timerClosed s e) := by
+  have fr := frame_timerClosed s e c
+  refine ⟨?_, ?_⟩
+  · unfold timerClosed
+    by_cases hen : (decide (e < s.nctx) && (s.ctxs e).timerClosing && !(s.ctxs e).freed) = true
+    · simp only [hen, Bool.not_true, Bool.false_eq_true, if_false]
+      have he : e < s.nctx := by simp at hen; exact hen.1.1
+      have htc : (s.ctxs e).timerClosing = true := by simp at hen; exact hen.1.2
+      have hf : (s.ctxs e).freed = false := by simp at hen; exact hen.2
+      have ho := handle_open hi he hf
+      have hah := hi.activeHead (s.ctxs e).handle
+      simp only [ho, Bool.false_eq_true, if_false]
+      cases hch : (s.hs (s.ctxs e).handle).chain with
+      | nil => simp only [liveB, S.fail, S.setCtx] at hd ⊢; grind
+      | cons hd' tl =>
+        by_cases g1 : hd' = e <;> by_cases g2 : (tl.isEmpty && (s.hs (s.ctxs e).handle).closing) = true <;>
+          by_cases g3 : (s.hs (s.ctxs e).handle).closePending = true <;> by_cases g4 : e ∈ tl <;>
+          simp only [g1, g2, g3, g4, if_true, if_false, Bool.false_eq_true, liveB, S.fail, S.setCtx, S.setH] at hd ⊢ <;>
+          grind
+    · simp only [hen, Bool.not_false, if_true]; simpa [liveB, S.emit] using hd
+  · rcases trace_timerClosed s e with h | h <;> simp [deadLog, h, cbsOf, statsOf, armsOf]
+
+theorem dead_step (sc : Script) {s : S} (hi : Inv s) (i : In) {c : Nat} (hc : c < s.nctx)
+    (hd : liveB s c = false) : liveB (step sc s i) c = false ∧ deadLog c s (step sc s i) := by
+  cases i with
+  | op o => exact dead_applyOp o hc hd
+  | statDone e r => exact dead_statDone sc hi e r hc hd
+  | timerFire e => exact dead_timerFire hi e hc hd
+  | timerClosed e => exact dead_timerClosed hi e hd
+  | closeCb h => exact dead_closeCb h hd
+  | advance n => exact ⟨by simpa [liveB, step] using hd, by simp [deadLog, step]⟩
+
+theorem nctx_step (sc : Script) (s : S) (i : In) : s.nctx ≤ (step sc s i).nctx := by
+  cases i with
+  | op o =>
+    cases o with
+    | start h cb p iv =>
+      simp only [step, applyOp, apiStart, S.emit]
+      by_cases g1 : (s.hs h).closing = true
+      · simp [g1]
+      · by_cases g2 : (s.hs h).active = true <;> simp [g1, g2]
+    | stop h => simp only [step, applyOp]; rw [nctx_apiStop]; exact Nat.le_refl _
+    | close h => simp only [step, applyOp]; rw [nctx_apiClose]; exact Nat.le_refl _
+  | statDone e r =>
+    simp only [step]
+    unfold statDone
+    by_cases hen : (decide (e < s.nctx) && (s.ctxs e).statInFlight) = true
+    · have he : e < s.nctx := by simp at hen; exact hen.1
+      simp only [hen, Bool.not_true, Bool.false_eq_true, if_false]
+      rw [(frame_finishPoll _ e 0).1]
+      have e0 : (if ((s.ctxs e).freed || (s.hs (s.ctxs e).handle).closed) = true then s.fail else s).nctx = s.nctx := by
+        split <;> rfl
+      generalize (if ((s.ctxs e).freed || (s.hs (s.ctxs e).handle).closed) = true then s.fail else s) = s0 at e0 ⊢
+      have key : ∀ s2 : S, s.nctx ≤ s2.nctx → ∀ (b : Bool) (f : S → Ctx),
+          s.nctx ≤ (if b = true then s2.setCtx e (f s2) else s2).nctx := by
+        intro s2 h2 b f; split <;> simpa [S.setCtx] using h2
+      refine key _ ?_ (liveB s0 e) (fun s2 => noteResult (s2.ctxs e) _ r)
+      split
+      · have hX : ((s0.emit (.res e r (liveB s0 e))).emit
+            (.cb e (s.ctxs e).handle (s.ctxs e).cb r.status (s.ctxs e).statbuf r.curr)).nctx = s.nctx := e0
+        have := (frame_runCb sc (s := (s0.emit (.res e r (liveB s0 e))).emit
+          (.cb e (s.ctxs e).handle (s.ctxs e).cb r.status (s.ctxs e).statbuf r.curr)) (c := e) (by rw [hX]; exact he)).1
+        exact Nat.le_trans (Nat.le_of_eq hX.symm) this
+      · exact Nat.le_of_eq e0.symm
+    · simp [hen, S.emit]
+  | timerFire e => simp only [step]; rw [(frame_timerFire s e 0).1]; exact Nat.le_refl _
+  | timerClosed e => simp only [step]; rw [(frame_timerClosed s e 0).1]; exact Nat.le_refl _
+  | closeCb h => simp only [step]; rw [(frame_closeCb s h 0).1]; exact Nat.le_refl _
+  | advance n => exact Nat.le_refl _
+
+theorem dead_run (sc : Script) {s : S} (hi : Inv s) (ins : List In) {c : Nat} (hc : c < s.nctx)
+    (hd : liveB s c = false) : liveB (run sc s ins) c = false ∧ deadLog c s (run sc s ins) := by
+  induction ins generalizing s with
+  | nil => exact ⟨hd, deadLog_refl c s⟩
+  | cons i t ih =>
+    have h1 := dead_step sc hi i hc hd
+    have h2 := ih (inv_step sc hi i) (Nat.lt_of_lt_of_le hc (nctx_step sc s i)) h1.1
+    exact ⟨h2.1, deadLog_trans h1.2 h2.2⟩
+
+/-! ### reachability, chain lemma on the specification, retirement of dead contexts -/
+
+/-- states reachable from the initial state by any inputs under any callback script -/
+def Reachable (sc : Script) (s : S) : Prop := ∃ ins, s = run sc {} ins
+
+theorem reachable_inv {sc : Script} {s : S} (h : Reachable sc s) : Inv s := by
+  obtain ⟨ins, rfl⟩ := h; exact inv_run sc inv_init ins
+
+theorem lastOk_of_newestOkCb (rs : List Res) (cb : CbRec) (h : newestOkCb (specCbs rs) = some cb) :
+    cb.curr = lastOk rs := by
+  induction rs with
+  | nil => simp [specCbs, newestOkCb] at h
+  | cons r older ih =>
+    cases r with
+    | err e =>
+      have hs : (Res.err e).status ≠ 0 := by have := status_err_neg e; omega
+      simp only [specCbs, lastOk] at h ⊢
+      by_cases hr : reported older (.err e) = true
+      · simp [hr, newestOkCb, hs] at h; exact ih h
+      · simp [hr] at h; exact ih h
+    | ok st =>
+      simp only [specCbs, lastOk] at h ⊢
+      by_cases hr : reported older (.ok st) = true
+      · simp [hr, newestOkCb, Res.status, Res.curr] at h; rw [← h]
+      · simp [hr] at h
+        cases older with
+        | nil => simp [specCbs, newestOkCb] at h
+        | cons p t =>
+          have := ih h
+          cases p with
+          | ok st' =>
+            simp [reported, differ] at hr
+            rw [this, lastOk]; exact (statbufEq_iff _ _).1 hr
+          | err f => simp [reported, differ] at hr
+
+theorem dead_pending {s : S} (hi : Inv s) {c : Nat} (hc : c < s.nctx) (hd : liveB s c = false)
+    (hf : (s.ctxs c).freed = false) :
+    (s.ctxs c).timerActive = false ∧ ((s.ctxs c).statInFlight = true ∨ (s.ctxs c).timerClosing = true) := by
+  have h1 := hi.timerLive c hc
+  have h2 := hi.phaseOne c hc hf
+  grind
+
+theorem retire_stat (sc : Script) {s : S} (hi : Inv s) {c : Nat} (hc : c < s.nctx) (hd : liveB s c = false)
+    (hst : (s.ctxs c).statInFlight = true) (r : Res) :
+    ((statDone sc s c r).ctxs c).timerClosing = true ∧ ((statDone sc s c r).ctxs c).freed = false ∧
+    ((statDone sc s c r).ctxs c).statInFlight = false ∧
+    (statDone sc s c r).trace = .closeTimer c :: .res c r false :: s.trace := by
+  have hf : (s.ctxs c).freed = false := by have := hi.phaseFreed c hc; grind
+  have hx := hi.phaseExcl c hc
+  have htc : (s.ctxs c).timerClosing = false := by grind
+  rw [statDone_enabled sc hi hc hst r]
+  have hl : liveB { s with trace := Obs.res c r false :: s.trace } c = false := by simpa [liveB] using hd
+  simp [hd, finishPoll, hl, S.emit, S.setCtx, htc, hf]
+
+theorem retire_close {s : S} (hi : Inv s) {c : Nat} (hc : c < s.nctx)
+    (htc : (s.ctxs c).timerClosing = true) :
+    ((timerClosed s c).ctxs c).freed = true ∧ (timerClosed s c).nctx = s.nctx := by
+  have hf : (s.ctxs c).freed = false := by have := hi.phaseFreed c hc; grind
+  refine ⟨?_, (frame_timerClosed s c c).1⟩
+  unfold timerClosed
+  simp [hc, htc, hf, S.setCtx]
+
 end UvModel.FsPoll
